@@ -142,6 +142,17 @@ class Unspecified(Exception):
     pass
 
 
+UNSPECIFIED = [
+    '-Dk=v for a project option that is not (or no longer) declared in the option file',
+    '--wipe while cmd_line.txt records a value for an option that no longer exists, or a value the current choice list rejects',
+    'exit status of -Usub:k when sub:k has no override (no effect either way; the effect is still checked)',
+    '-U of a subproject project option that does not yield; -D/-U of options of an undeclared subproject',
+    'meson configure -Dboom=true (setting, without reconfiguring, a value that makes the build files fail): not in the alphabet',
+    'the value introspection / meson configure list for yielding or per-subproject-augmented options (DESIGN 7.15): part of the '
+    'state key only; get_option() is the ground truth',
+]
+
+
 def model_initial(D=()):
     m = {'file': 'base', 'conf': 'base',
          'top': {k: v[1] for k, v in VARIANTS['base'].items()},
@@ -873,27 +884,32 @@ def main():
             cold_checked += 1
 
     # ---- anti-vacuity ------------------------------------------------------------------------------------------
-    ck.require(len(states) >= 20, 'only %d states' % len(states))
-    ck.require(facts.get('failed-unmoved', 0) > 0, 'no injected failure was observed to fail and leave the state alone')
-    ck.require('postconf-script' in fail_classes, 'late failure (after coredata.dat was written) never happened')
-    ck.require({'invalid-value', 'error()', 'option-file-syntax'} <= fail_classes, 'an injected failure class never failed: %r' % sorted(fail_classes))
-    ck.require({'ok:wipe', 'ok:edit', 'ok:configure', 'ok:reconfigure', 'ok:setup'} <= edge_classes, 'edge classes %r' % sorted(edge_classes))
-    for f in ('choices-fallback', 'choices-kept', 'option-added', 'option-removed', 'default-changed-value-kept', 'override-dropped',
-              'wipe-same'):
-        ck.require(facts.get(f, 0) > 0, 'clause never exercised: ' + f)
-    if levels_done >= 3:
-        ck.require(facts.get('wipe-rederived-differently', 0) > 0, 'no --wipe that changed the configuration (new default picked up)')
+    # (skipped when an unknown violation was found: everything behind a violation is pruned, so holes are expected
+    #  and the verdict is exit 1 anyway)
     yield_over = sum(1 for s in states.values() if s['m']['over'])
     augs = sum(1 for s in states.values() if s['m']['aug'])
     variants_seen = sorted({s['m']['conf'] for s in states.values()})
-    ck.require(yield_over > 0 and augs > 0, 'no state with a per-subproject override')
-    ck.require(len(variants_seen) == len(VARIANTS), 'option-file variants reached: %r' % variants_seen)
-    ck.require(n_diff > 0, 'differential oracle never compared two histories')
+    if ck.n_viol == 0:
+        ck.require(len(states) >= 20, 'only %d states' % len(states))
+        ck.require(facts.get('failed-unmoved', 0) > 0, 'no injected failure was observed to fail and leave the state alone')
+        ck.require('postconf-script' in fail_classes, 'late failure (after coredata.dat was written) never happened')
+        ck.require({'invalid-value', 'error()', 'option-file-syntax'} <= fail_classes, 'an injected failure class never failed: %r' % sorted(fail_classes))
+        ck.require({'ok:wipe', 'ok:edit', 'ok:configure', 'ok:reconfigure', 'ok:setup'} <= edge_classes, 'edge classes %r' % sorted(edge_classes))
+        for f in ('choices-fallback', 'choices-kept', 'option-added', 'option-removed', 'default-changed-value-kept', 'override-dropped',
+                  'wipe-same'):
+            ck.require(facts.get(f, 0) > 0, 'clause never exercised: ' + f)
+        if levels_done >= 3:
+            ck.require(facts.get('wipe-rederived-differently', 0) > 0, 'no --wipe that changed the configuration (new default picked up)')
+        ck.require(yield_over > 0 and augs > 0, 'no state with a per-subproject override')
+        ck.require(len(variants_seen) == len(VARIANTS), 'option-file variants reached: %r' % variants_seen)
+        ck.require(n_diff > 0, 'differential oracle never compared two histories')
     for s in list(states.values())[1:40:8]:
         ck.sample({'history': s['hist'], 'get_option': s['res']['obs']['msgs'], 'cmd_line': s['res']['pobs']['cmdline']})
     ck.assume('one project (top: string s, combo c, boolean boom/late, removable r, addable n; subproject sub: yielding s and c, '
               'plain o, per-subproject warning_level/default_library), --backend=none, no languages')
     ck.assume('snapshots exclude meson-logs/ (never read by any command)')
+    for u in UNSPECIFIED:
+        ck.assume('unspecified corner (skipped, counted): ' + u)
     ck.assume('intro-buildoptions.json is read directly; the cold slice shows `meson introspect --buildoptions` prints exactly it')
     ck.assume('behind a violation nothing is explored, except behind known findings of the classes %s where exploration '
               'continues with the disagreeing get_option() keys no longer compared on that history' % (TAINT_CLASSES,))
